@@ -169,7 +169,8 @@ REVERTS = [
     ("9ca1d8a", ["C01"]), ("336ed11", ["C04"]), ("d830242", ["C04"]), ("abb63e7", ["C02"]), ("66ad869", ["C05"]),
 ("dba0733", ["C07"]), ("0c9977b", ["C07"]), ("2a5d64e", ["C07"]), ("b46438b", ["C07"]),
     ("02d4ecb", ["C08"]), ("0ad9135", ["C09"]), ("6e33d4e", ["C10"]), ("c6108cc", ["C11"]), ("e362918", ["C11"]),
-    ("e7f960c", ["C20"]), ("b4313ab", ["C04"]),
+    ("e7f960c", ["C20"]), ("b4313ab", ["C04"]), ("4f0c1c6", ["C10"]), ("1c6f396", ["C19"]), ("7920bb5", ["C20"]),
+    ("fd90d27", ["C04"]),
 ]
 
 
